@@ -1,4 +1,5 @@
 import Deltio.Lemmas.SubRun
+import Deltio.Lemmas.SysSub
 /-
   C02 — Acknowledgement is final and affects only that delivery.
   All theorems are about arbitrary sequences of turns of one subscription actor, i.e. about every
@@ -112,5 +113,27 @@ example :
     s0.out.msgs.map (·.ack) = [1] ∧ s0.backlog.map (·.id) = [8] ∧
     ((s0.turn (.ack [1])).1.exec [.expire 99999999, .pull 10 99999999]).out.msgs.map (·.msg.id) = [8] := by
   decide
+
+/-! ### System level -/
+
+/-- C02 (system level): an Acknowledge on one subscription leaves the state of every other
+    subscription — in particular other subscriptions' copies of the same message — untouched, and
+    changes no topic, no manager entry, no registry entry. -/
+theorem C02_other_subs (sys : Sys) (raw : Bytes) (ids : List Bytes) (n : Name) (e : SubEnt)
+    (hp : parseSubName raw = some n) (hf : sys.findSub n = some e) (sid' : Nat) (hne : sid' ≠ e.sid) :
+    (sys.rpc (.ack raw ids)).1.stateOf sid' = sys.stateOf sid' ∧ (sys.rpc (.ack raw ids)).1.skel = sys.skel := by
+  cases hids : parseAckIds ids with
+  | none => simp [Sys.rpc, hids]
+  | some as =>
+    simp only [Sys.rpc, hids, hp, hf]
+    exact ⟨subReq_other sys e.sid sid' _ hne, skel_subReq sys e.sid _⟩
+
+/-! non-vacuity (two subscriptions on one topic) -/
+example :
+    let s1 := (exSys.rpc (.publish exT [([1], [])])).1
+    let s2 := (s1.rpc (.pull exS1 10 true)).1
+    let s3 := (s2.rpc (.pull exS2 10 true)).1
+    let s4 := (s3.rpc (.ack exS1 [[49]])).1
+    (s4.stateOf 2).map (fun st => st.out.len) = some 0 ∧ (s4.stateOf 3).map (fun st => st.out.len) = some 1 := by decide
 
 end Deltio
